@@ -14,6 +14,7 @@
 package fschannel
 
 import (
+	"bytes"
 	"fmt"
 	"os"
 	"time"
@@ -103,31 +104,44 @@ func (f *rotateFile) Write(p []byte) (int, error) {
 	written := 0
 
 	for f.pos+int64(len(p)) > f.maxSize {
+		// j is the length of the longest prefix of whole lines that still fits
 		j := f.maxSize - int64(f.pos)
+		if j < 0 {
+			j = 0
+		}
 
 		for ; j > 0; j-- {
 			// line endings windows?
-			if p[j] == '\n' {
+			if p[j-1] == '\n' {
 				break
 			}
 		}
 
-		n, err := f.f.Write(p[:j])
-		if err != nil {
-			return n, err
+		if j == 0 && f.pos == 0 {
+			// a single line larger than the maximum size gets a file of its own
+			if i := bytes.IndexByte(p, '\n'); i >= 0 {
+				j = int64(i) + 1
+			} else {
+				j = int64(len(p))
+			}
 		}
 
+		n, err := f.f.Write(p[:j])
+		f.pos += int64(n)
 		written += n
+		if err != nil {
+			return written, err
+		}
+
+		p = p[j:]
+		if len(p) == 0 {
+			return written, nil
+		}
 
 		// rotate
 		if err := f.rotate(); err != nil {
 			return written, err
 		}
-
-		// skip \n
-		written += 1
-
-		p = p[j+1:]
 	}
 
 	n, err := f.f.Write(p)
